@@ -7,7 +7,7 @@
 From Coq Require Import ZArith List Bool Ring Permutation.
 From PV Require Import Comb.Binom C04.PermModel C04.PermProofs C04.LoopProofs C04.GrayProofs
   C04.JobProofs C04.SumProofs C04.FinalProofs C04.LaplaceProofs C04.ExpansionProofs
-  C04.GlynnPlain C04.GlynnMult C04.GlynnFinal.
+  C04.GlynnPlain C04.GlynnMult C04.GlynnFinal C04.HafModel C04.HafProofs.
 Import ListNotations.
 Local Close Scope Z_scope.
 Local Open Scope nat_scope.
@@ -225,6 +225,48 @@ Theorem C04_laplace_int32_overflow_refuted :
     sum_nat rows <= 40 /\ sum_nat cols = S (sum_nat rows) /\ length M = length rows /\
     permanent_laplace_cpp_zi 32 32 1 M rows cols = Overflow.
 Proof. exact laplace_int32_overflow_refuted. Qed.
+
+(* ---- the integer bookkeeping of the hafnian reduction (piquasso/_math/hafnian/utils.py,
+   model C04/HafModel.v, tied exactly to the implementation on every occupation vector with
+   total <= 8 on <= 6 modes) *)
+(* match_occupation_numbers always finishes (fuel = total occupation is never exhausted, the
+   loop is never stuck) ... *)
+Theorem C04_match_occupation_numbers_terminates : forall nvec,
+  exists es res, match_occupation_numbers nvec = MoOk es res.
+Proof. exact match_occupation_numbers_terminates. Qed.
+Print Assumptions C04_match_occupation_numbers_terminates.
+
+(* ... and its edges reproduce the occupation vector: mode i is used by the edges (repetitions
+   counted, a self-edge twice) exactly nvec_i times, up to one unmatched particle in total *)
+Theorem C04_match_occupation_numbers_incidence : forall nvec es res,
+  match_occupation_numbers nvec = MoOk es res ->
+  sum_nat res <= 1 /\ forall i, incidence es i + nth i res 0 = nth i nvec 0.
+Proof. exact match_occupation_numbers_incidence. Qed.
+Print Assumptions C04_match_occupation_numbers_incidence.
+
+Theorem C04_match_occupation_numbers_even : forall nvec es res,
+  match_occupation_numbers nvec = MoOk es res -> sum_nat res = 0 ->
+  forall i, incidence es i = nth i nvec 0.
+Proof. exact match_occupation_numbers_even. Qed.
+
+(* get_kept_edges over the indices 0 .. prod(reps_e+1)-1 lists the box prod [0..reps_e] in order,
+   and every sub-multiset of the repeated edges is the image of exactly one index *)
+Theorem C04_kept_edges_enumeration : forall reps,
+  map (get_kept_edges reps) (seq 0 (idx_max (map S reps))) = box reps.
+Proof. exact kept_edges_enumeration. Qed.
+Print Assumptions C04_kept_edges_enumeration.
+
+Theorem C04_kept_edges_exactly_once : forall reps g,
+  Forall2 (fun gi ri => gi <= ri) g reps ->
+  exists k, k < idx_max (map S reps) /\ get_kept_edges reps k = g /\
+            forall k', k' < idx_max (map S reps) -> get_kept_edges reps k' = g -> k' = k.
+Proof. exact kept_edges_exactly_once. Qed.
+Print Assumptions C04_kept_edges_exactly_once.
+
+Example C04_example_match_occupation :
+  match_occupation_numbers [1;2;3;4;5;6;7]
+  = MoOk [(6, 6, 5); (4, 4, 3); (2, 2, 1); (1, 6, 4); (1, 2, 0)] [0;0;0;0;0;0;0].
+Proof. vm_compute. reflexivity. Qed.
 
 (* ---- non-vacuity: the ring the model is run at, and concrete values *)
 Theorem C04_gaussian_integers_ring : ring_theory zi0 zi1 ziadd zimul zisub ziopp (@eq Zi).
